@@ -113,7 +113,7 @@ func cmdCheck(args []string) {
 		fmt.Fprintln(os.Stderr, err)
 		os.Exit(2)
 	}
-	timeout := 10 * time.Second
+	timeout := 20 * time.Second
 	agree := 1
 	if *tier == "thorough" {
 		timeout = 60 * time.Second
